@@ -18,6 +18,75 @@ from symx import Leaf, Obj, Arr, Cell, Ptr, POISON, SymxError, Finding, MASK
 from ringdom import RingDomain, BIGINT_RE
 
 
+class Z3Session:
+    """one z3 process per path, fed incrementally: facts are asserted once, every query is (push) goal (check-sat) (pop).
+    Linear real arithmetic only; `unsat` is the only answer that is used (a timeout or any irregularity counts as 'not proved')."""
+
+    def __init__(self):
+        import subprocess
+        self.p = subprocess.Popen(["z3", "-in"], stdin=subprocess.PIPE, stdout=subprocess.PIPE, stderr=subprocess.STDOUT, bufsize=0)
+        self.buf = b""
+        self.declared = set()
+        self.nfacts = self.ncons = 0
+        self.dead = False
+        self.send("(set-option :print-success false)")
+
+    def send(self, txt):
+        try:
+            self.p.stdin.write((txt + "\n").encode())
+        except Exception:
+            self.dead = True
+
+    def check(self, timeout):
+        """-> 'unsat' only if z3 printed exactly that for THIS query (a marker is echoed after every query, so a stray line can never be taken
+        for an answer); anything else (sat, unknown, error text, timeout) is 'unknown' and an irregular reply ends the session"""
+        import select, time, os
+        self.n = getattr(self, "n", 0) + 1
+        marker = "jpv-done-%d" % self.n
+        self.send("(check-sat)\n(echo \"%s\")" % marker)
+        if self.dead:
+            return "unknown"
+        got = []
+        t_end = time.time() + timeout + 10
+        while True:
+            left = t_end - time.time()
+            if left <= 0:
+                self.close()
+                return "unknown"
+            if b"\n" not in self.buf:
+                r, _, _ = select.select([self.p.stdout], [], [], left)
+                if not r:
+                    self.close()
+                    return "unknown"
+                chunk = os.read(self.p.stdout.fileno(), 65536)
+                if not chunk:
+                    self.close()
+                    return "unknown"
+                self.buf += chunk
+                continue
+            line, self.buf = self.buf.split(b"\n", 1)
+            line = line.decode(errors="replace").strip()
+            if line == marker:
+                break
+            if line:
+                got.append(line)
+        if got == ["unsat"]:
+            return "unsat"
+        if got not in (["sat"], ["unknown"]):
+            self.close()
+        return "unknown"
+
+    def close(self):
+        self.dead = True
+        try:
+            self.p.kill()
+        except Exception:
+            pass
+
+    def __del__(self):
+        self.close()
+
+
 class WVal:
     """parts (optional): the 64-bit digits of the value, least significant first (each an int or a WVal below 2^64)"""
     __slots__ = ("p", "hi", "parts")
@@ -68,8 +137,15 @@ class WordDomain(RingDomain):
         self.note = ""
         self.borrows = {}
         self.facts = []             # (Poly, lo, hi): lo <= Poly <= hi  -- range facts of truncated values, for the relational bound prover
+        self.known_hi = {}          # Poly -> inclusive upper bound of a NON-NEGATIVE program value with exactly this polynomial (flags, truncated words)
+        self.pinned = []            # facts stated by the unit (preconditions, lemmas): always part of the hypothesis
+        self.incremental = False    # one incremental z3 process per path instead of one process per query (all facts, asserted once)
+        self.session = None
+        self.local_facts = None     # None: carry exclusion uses every fact; K: only the K most recent ones (long straight-line routines)
         self.use_z3 = False         # relational bounds: before introducing a carry symbol, ask z3 (QF_LIA over the facts) whether the value fits
         self.z3_calls = 0
+        self.z3_time = 0.0
+        self.z3_budget = 600.0
         self.bounds = {}            # repr(poly) -> tightened inclusive upper bound learnt from a branch condition
         self.constraints = []       # (Poly, rel) path constraints of the branches taken
         self.sums = {}              # repr(truncated sum) -> (x, y, carry): for the carry-detect idiom  (x + y) < x
@@ -95,6 +171,14 @@ class WordDomain(RingDomain):
             return c & (top - 1), c >> w
         if all(c % top == 0 for c in v.p.t.values()):
             return 0, simp(WVal(Poly({m: c // top for m, c in v.p.t.items()}), v.hi >> w))
+        # divisible part + small remainder: p == 2^w * X + Y with Y a known non-negative value below 2^w (a flag, a half word): exact, no symbol
+        Yt = {m: c for m, c in v.p.t.items() if c % top}
+        if Yt and len(Yt) < len(v.p.t):
+            Y = Poly(Yt)
+            yb = self.bound_of(Y)
+            if yb is not None and yb < top:
+                X = Poly({m: c // top for m, c in v.p.t.items() if c % top == 0})
+                return simp(self.known(WVal(Y, yb))), simp(self.known(WVal(X, v.hi >> w)))
         # canonical form: a common factor 2^j of all coefficients is split off first, so that (x << j) truncated at w bits and
         # x >> (w - j) share one carry symbol
         j = 0
@@ -106,7 +190,7 @@ class WordDomain(RingDomain):
             lo = wv(lo)
             return simp(WVal(lo.p * g, lo.hi * g)), c
         key = (v.p, w)
-        if key not in self.splits and self.use_z3 and v.hi < (top << 1) and self.prove_lt(v.p, top):
+        if key not in self.splits and self.use_z3 and v.hi < (top << 1) and self.prove_lt(v.p, top, recent=self.local_facts):
             # the value provably fits (relational bound over the recorded facts): no carry
             self.splits[key] = (WVal(v.p, top - 1, v.parts), 0)
         if key not in self.splits:
@@ -118,6 +202,7 @@ class WordDomain(RingDomain):
             c = WVal(Poly.var(name), v.hi >> w)
             lo = WVal(v.p - c.p * top, top - 1)
             self.facts.append((lo.p, 0, top - 1))
+            self.known(lo)
             self.splits[key] = (lo, c)
         return self.splits[key]
 
@@ -178,30 +263,47 @@ class WordDomain(RingDomain):
         out.append(prev_hi)
         return self.from_digits(out[:n])
 
-    def borrow(self, a, b):
-        """a - b == d - 2^64 * bw with 0 <= d < 2^64, bw in {0, 1}"""
+    def borrow(self, a, b, w=64):
+        """a - b == d - 2^w * bw with 0 <= d < 2^w, bw in {0, 1}"""
         a, b = wv(a), wv(b)
+        top = 1 << w
         if b.p.is_zero():
             return simp(a), 0
         if a.p.is_const() and b.p.is_const():
             x = a.p.const_value() - b.p.const_value()
-            return x % (1 << 64), 1 if x < 0 else 0
+            return x % top, 1 if x < 0 else 0
         if b.p.is_const() and b.p.const_value() == 1 and self.refine(a).hi <= 1:
             # flag - 1: borrows exactly when the flag is 0 (the "set carry from a 0/1 register" idiom): no new symbol
-            return simp(WVal((Poly.const(1) - a.p) * ((1 << 64) - 1), (1 << 64) - 1)), simp(WVal(Poly.const(1) - a.p, 1))
+            return simp(WVal((Poly.const(1) - a.p) * (top - 1), top - 1)), simp(WVal(Poly.const(1) - a.p, 1))
+        if a.p.is_zero() and not b.p.is_const():
+            # 0 - K*f for a 0/1 flag f: the result is (2^w - K)*f with borrow f (the "materialise / negate a carry" idioms)
+            from math import gcd
+            K = 0
+            for c in b.p.t.values():
+                K = gcd(K, abs(c))
+            if 0 < K < top and all(c > 0 or True for c in b.p.t.values()):
+                F = Poly({m: c // K for m, c in b.p.t.items()})
+                fb = self.bound_of(F)
+                if fb is not None and fb <= 1:
+                    return simp(self.known(WVal(F * (top - K), top - K))), simp(self.known(WVal(F, 1)))
         diff = a.p - b.p
-        key = diff
-        if key not in self.borrows and self.use_z3 and self.prove_lt(-diff, 1):
+        if diff.is_const():
+            x = diff.const_value()
+            return x % top, 1 if x < 0 else 0
+        key = (diff, w)
+        if key not in self.borrows and self.use_z3 and self.prove_lt(-diff, 1, recent=self.local_facts):
             self.borrows[key] = (WVal(diff, a.hi), 0)
         if key not in self.borrows:
             self.ncarry += 1
             name = "b#%d" % self.ncarry
-            self.defs.append((name, "borrow", diff, 64))
+            self.defs.append((name, "borrow", diff, w))
             self.origin[name] = self.note
             self.ranges[name] = 1
             bw = WVal(Poly.var(name), 1)
-            d = WVal(diff + bw.p * (1 << 64), (1 << 64) - 1)
-            self.facts.append((d.p, 0, (1 << 64) - 1))
+            d = WVal(diff + bw.p * top, top - 1)
+            self.facts.append((d.p, 0, top - 1))
+            self.known(d)
+            self.known(WVal(Poly.const(1) - bw.p, 1))
             self.borrows[key] = (d, bw)
         return self.borrows[key]
 
@@ -227,20 +329,38 @@ class WordDomain(RingDomain):
             return "0"
         return "(+ %s)" % " ".join(terms) if len(terms) > 1 else terms[0]
 
-    def prove_lt(self, p, bound, timeout=20):
+    def prove_lt(self, p, bound, timeout=20, recent=None, only=None):
         """p < bound (for an integer-valued p the same as p <= bound - 1, but provable over the rationals more often)"""
-        return self.prove_le(p, bound, timeout=timeout, strict=True)
+        return self.prove_le(p, bound, timeout=timeout, strict=True, recent=recent, only=only)
 
-    def prove_le(self, p, bound, timeout=20, ints=False, strict=False):
+    def prove_le(self, p, bound, timeout=20, ints=False, strict=False, recent=None, only=None):
+        import time
+        if self.z3_time > self.z3_budget:
+            return False          # solver budget of this path exhausted: 'not proved' (a carry symbol is introduced instead)
+        t0 = time.time()
+        try:
+            return self._prove_le(p, bound, timeout, ints, strict, recent, only)
+        finally:
+            self.z3_time += time.time() - t0
+
+    def _prove_le(self, p, bound, timeout=20, ints=False, strict=False, recent=None, only=None):
         """True iff  p <= bound  follows from the symbol ranges, the recorded range facts and the path constraints.
+        recent = K: only the K most recently recorded facts (plus the pinned preconditions) are used -- a weaker hypothesis, still sound;
+        the carry chains of a multi-precision row only need the facts of that row.
         Decided over the RATIONALS by default (linear programming: unsatisfiable there implies unsatisfiable over the integers, so a True
         answer is sound; the bounds needed here are all LP consequences), over the integers when ints=True."""
+        if self.incremental and only is None:
+            return self._prove_inc(p, bound, timeout, strict)
         import groupdom
         mons = {}
         lines = []
         goal = self._lin(p, mons)
         body = []
-        for (f, lo, hi) in self.facts:
+        facts = self.facts if recent is None or len(self.facts) <= recent else (self.pinned + self.facts[-recent:])
+        if only is not None:
+            keep = set(only)
+            facts = self.pinned + [f for f in self.facts if f[0] in keep]          # a chosen sub-hypothesis: weaker, still sound
+        for (f, lo, hi) in facts:
             t = self._lin(f, mons)
             body.append("(assert (and (<= %d %s) (<= %s %d)))" % (lo, t, t, hi))
         rel = {"<": "(< %s 0)", ">": "(> %s 0)", "<=": "(<= %s 0)", ">=": "(>= %s 0)", "==": "(= %s 0)", "!=": "(not (= %s 0))"}
@@ -258,11 +378,16 @@ class WordDomain(RingDomain):
             groupdom._Z3_CACHE[txt] = res
         return res[0] == "unsat"
 
-    def zero_symbols(self, p, timeout=20):
-        """carry / borrow symbols occurring in p that are provably 0 on this path are recorded as equalities (then reduce_eq removes them)"""
+    def zero_symbols(self, p, timeout=20, only=None):
+        """carry / borrow symbols occurring in p that are provably 0 on this path are recorded as equalities (then reduce_eq removes them).
+        only: polynomials whose range facts (plus the pinned facts) are tried first as a small hypothesis; the full fact base is the fall-back."""
         found = []
-        for v in sorted(p.vars()):
-            if (v.startswith("c#") or v.startswith("b#")) and self.prove_lt(Poly.var(v), 1, timeout=timeout):
+        cands = [v for v in sorted(p.vars()) if v.startswith("c#") or v.startswith("b#")]
+        if len(cands) > 6:
+            return found          # a correct routine leaves at most a handful of dropped carries; do not burn solver time on a broken one
+        for v in cands:
+            ok = (only is not None and self.prove_lt(Poly.var(v), 1, timeout=timeout, only=only)) or self.prove_lt(Poly.var(v), 1, timeout=timeout)
+            if ok:
                 self.constraints.append((Poly.var(v), "=="))
                 found.append(v)
         return found
@@ -283,8 +408,65 @@ class WordDomain(RingDomain):
                 env[name] = v // par
         return [p.eval(env) for p in polys], env
 
+    def _prove_inc(self, p, bound, timeout, strict):
+        ses = self.session
+        if ses is None or ses.dead:
+            ses = self.session = Z3Session()
+            ses.send("(set-option :timeout %d)" % (timeout * 1000))
+        rel = {"<": "(< %s 0)", ">": "(> %s 0)", "<=": "(<= %s 0)", ">=": "(>= %s 0)", "==": "(= %s 0)", "!=": "(not (= %s 0))"}
+        out = []
+        mons = {}
+        for (f, lo, hi) in self.facts[ses.nfacts:]:
+            t = self._lin(f, mons)
+            out.append("(assert (and (<= %d %s) (<= %s %d)))" % (lo, t, t, hi))
+        ses.nfacts = len(self.facts)
+        for d, o in self.constraints[ses.ncons:]:
+            out.append("(assert %s)" % (rel[o] % self._lin(d, mons)))
+        ses.ncons = len(self.constraints)
+        goal = self._lin(p, mons)
+        decl = []
+        for v, hi in sorted(mons.items()):
+            if v not in ses.declared:
+                ses.declared.add(v)
+                decl.append("(declare-const |%s| Real)" % v)
+                decl.append("(assert (and (<= 0 |%s|) (<= |%s| %d)))" % (v, v, hi))
+        self.z3_calls += 1
+        ses.send("\n".join(decl + out + ["(push)", "(assert (%s %s %d))" % (">=" if strict else ">", goal, bound)]))
+        r = ses.check(timeout)
+        ses.send("(pop)")
+        return r == "unsat"
+
+    def reset_facts(self):
+        """forget every recorded range fact (abstraction point: weaker hypothesis from here on); path constraints are kept"""
+        self.facts, self.pinned = [], []
+        if self.session is not None:
+            self.session.close()
+            self.session = None
+
     def add_fact(self, p, lo, hi):
         self.facts.append((p, lo, hi))
+        self.pinned.append((p, lo, hi))
+
+    def known(self, v):
+        """register the bound of a non-negative program value (so that it can be recognised inside larger sums)"""
+        if isinstance(v, WVal) and not v.p.is_const():
+            b = self.known_hi.get(v.p)
+            if b is None or v.hi < b:
+                self.known_hi[v.p] = v.hi
+        return v
+
+    def bound_of(self, Y):
+        """inclusive upper bound of the polynomial Y if it is known to be a non-negative program value, else None"""
+        if Y.is_const():
+            c = Y.const_value()
+            return c if c >= 0 else None
+        if Y in self.known_hi:
+            return self.known_hi[Y]
+        if len(Y.t) == 1:
+            (m, c), = Y.t.items()
+            if len(m) == 1 and m[0][1] == 1 and c > 0 and m[0][0] in self.ranges:
+                return c * self.ranges[m[0][0]]
+        return None
 
     def fit(self, v, ts):
         ts = ts.replace("const ", "").strip()
